@@ -4,6 +4,8 @@ Applies <seed dir>/patch.diff to /repo's working tree, runs the given quick chec
 (git -C /repo checkout -- .), prints for each check whether it raised a VIOLATION."""
 import subprocess, sys, os, json, time
 
+ROOT = os.path.dirname(os.path.dirname(os.path.abspath(__file__)))   # the tree this script belongs to
+
 def main():
     seed = sys.argv[1]
     checks = sys.argv[2:]
@@ -19,7 +21,7 @@ def main():
     try:
         for c in checks:
             t0 = time.time()
-            p = subprocess.run(["./check", c, "--tier", os.environ.get("TIER", "quick")], cwd="/verif", capture_output=True, text=True, timeout=3600)
+            p = subprocess.run(["./check", c, "--tier", os.environ.get("TIER", "quick")], cwd=ROOT, capture_output=True, text=True, timeout=3600)
             lines = [l for l in p.stdout.splitlines() if l.startswith("VIOLATION") or l.startswith("CHECK-ERROR")]
             res[c] = {"rc": p.returncode, "violation_lines": lines[:3], "summary": p.stdout.strip().splitlines()[-1:] , "wall_s": round(time.time() - t0, 1)}
             print(c, "rc=%d" % p.returncode, lines[:1], p.stdout.strip().splitlines()[-1:])
